@@ -11,12 +11,18 @@
   * `rest_of_chain_skipped`: once a branch has run, ALL remaining branches are skipped without
     evaluating any condition, execution resumes after the whole chain and the flag is popped exactly
     once — this is the statement the fix F11 made true (the pinned code popped twice).
-  What is not closed yet is the composition over the *execution of the taken block* (it may leak
-  `true` flags, which the theorems above tolerate because they only inspect the top flag after the
-  block's own pushes are gone): that is the refinement `flat_refines_struct` (DESIGN.md §4 C02),
-  decided meanwhile by the exhaustive chain enumeration of the C02 check against the structured semantics.
+  The composition over the *execution of the taken block* (which may leak `true` flags, contain
+  loops, calls, returns …) is closed by the refinement of `Lemmas/Refine.lean` + `Lemmas/FrameInv.lean`:
+  `chain_anywhere` — for a structured program, any driver (top level / inside a call), any
+  continuation, any enclosing loop and ANY flag stack, the flat run in front of a chain decomposes
+  exactly along the structured meaning of the chain, which is (`chain_true`, `chain_false`,
+  `chain_nonbool`, `tail_*`): conditions in order, the block of the first true one, else the final
+  `অথবা` block, else nothing — and `whole_program` says a collection-free run IS that meaning.
+  Hypothesis of these theorems: the program is the flattening of a tree (`Structured`), which the
+  check establishes per generated program by `unflatten` (see `Spec/Unflatten.lean`).
 -/
 import Pakhi.Lemmas.Control
+import Pakhi.Lemmas.FrameInv
 
 namespace Pakhi
 namespace C02
@@ -82,6 +88,58 @@ theorem stray_else (prog : List Stmt) (f : Nat) (em : Meta) (rest : List Stmt) (
     (`যদি সত্য { যদি সত্য {A} অথবা {C} } অথবা {D}`: after the inner chain the outer tail is skipped) -/
 example : (STail.else ⟨1, []⟩ (.mk ⟨1, []⟩ (.cons (.simple (.print (.str ['D'] ⟨1, []⟩) ⟨1, []⟩)) .nil) ⟨1, []⟩)).WF ∧ notElse [] := by
   simp [STail.WF, SBlock.WF, SList.WF, SStmt.WF, Stmt.isSimple, notElse]
+
+
+/-! ### the chain as a whole (refinement) -/
+
+/-- meaning of a chain whose first condition is true: that block, nothing of the tail -/
+theorem chain_true (prog : List Stmt) (G : Nat) (c : Expr) (m : Meta) (body : SBlock) (tail : STail) (k : List Stmt) (s s1 : St)
+    (h : eval prog G (body.flatten ++ (tail.flatten ++ k)) c s = .ok (.bool true, s1)) :
+    sStmt prog G (.ifChain c m body tail) k s =
+      (sBlock prog G body (tail.flatten ++ k) { s1 with flags := true :: s1.flags }).bind fun y =>
+        match y.1 with
+        | .normal => .ok (.normal, popFlagIf tail y.2)
+        | sig => .ok (sig, y.2) := by
+  simp only [sStmt, h]; rfl
+
+/-- … false: the meaning of the rest of the chain (its block is not run) -/
+theorem chain_false (prog : List Stmt) (G : Nat) (c : Expr) (m : Meta) (body : SBlock) (tail : STail) (k : List Stmt) (s s1 : St)
+    (h : eval prog G (body.flatten ++ (tail.flatten ++ k)) c s = .ok (.bool false, s1)) :
+    sStmt prog G (.ifChain c m body tail) k s = sTail prog G tail k s1 := by
+  simp only [sStmt, h]; rfl
+
+/-- … neither: a runtime error at the condition, nothing runs -/
+theorem chain_nonbool (prog : List Stmt) (G : Nat) (c : Expr) (m : Meta) (body : SBlock) (tail : STail) (k : List Stmt) (s s1 : St) (v : Val)
+    (h : eval prog G (body.flatten ++ (tail.flatten ++ k)) c s = .ok (v, s1)) (hv : ∀ b, v ≠ .bool b) :
+    sStmt prog G (.ifChain c m body tail) k s = (metaErr c.meta .runtime "if-condition-not-boolean").tagOut s1.out := by
+  simp only [sStmt, h, Res.bind]
+  cases v <;> simp_all
+
+/-- the rest of a chain: nothing / the final else block / the next condition -/
+theorem tail_none (prog : List Stmt) (G : Nat) (k : List Stmt) (s : St) : sTail prog G .none k s = .ok (.normal, s) := by simp [sTail]
+theorem tail_else (prog : List Stmt) (G : Nat) (em : Meta) (b : SBlock) (k : List Stmt) (s : St) :
+    sTail prog G (.else em b) k s = sBlock prog G b k s := by simp [sTail]
+theorem tail_elseIf (prog : List Stmt) (G : Nat) (em : Meta) (c : Expr) (m : Meta) (b : SBlock) (t : STail) (k : List Stmt) (s : St) :
+    sTail prog G (.elseIf em c m b t) k s = sStmt prog G (.ifChain c m b t) k s := by simp [sTail, sStmt]
+
+/-- **C02 in any context**: wherever the chain stands (`k`, `ctx`, driver `D`) and whatever ran before (`s`, in
+    particular `s.flags`), the flat run from the chain's `যদি` decomposes along the chain's structured meaning:
+    on normal completion the run continues with the statement after the whole chain (`k`) in exactly the state the
+    meaning gives, with loop stack and scope depth as before -/
+theorem chain_anywhere {prog : List Stmt} {α : Type} (h : Structured prog) (D : Driver prog α) (c : Expr) (m : Meta) (body : SBlock)
+    (tail : STail) (F : Nat) (k : List Stmt) (s : St) (ctx : Option LC) (il : Bool) (r : Res α)
+    (hw : (SStmt.ifChain c m body tail).WF) (hc : (SStmt.ifChain c m body tail).Closed il) (hk : notElse k)
+    (hctx : CtxOK ctx il true k s) (hsuf : IsSuffixOf ((SStmt.ifChain c m body tail).flatten ++ k) prog)
+    (hs : StOK (GoodFn prog) prog s) (hrun : D.run F ((SStmt.ifChain c m body tail).flatten ++ k) s = r) (hr : r ≠ .fuel) :
+    Post D ctx k s F r (sStmt prog F (.ifChain c m body tail) k s) :=
+  stmt_refines h D _ F k s ctx il r hw hc hk hctx hsuf hs hrun hr
+
+/-- **whole programs**: a collection-free run that ends (value or error) is the structured meaning of the tree -/
+theorem whole_program (tree : SList) (em : Meta) (hw : tree.WF) (hc : tree.Closed false)
+    (hp : progWF (tree.flatten ++ [Stmt.eos em]) = true) (w : World) (F : Nat) (r : Res St)
+    (hrun : runLoop (tree.flatten ++ [Stmt.eos em]) .never F 0 (tree.flatten ++ [Stmt.eos em]) (St.init w) = r) (hr : r ≠ .fuel) :
+    sTop (tree.flatten ++ [Stmt.eos em]) F tree em (St.init w) = r :=
+  run_refines tree em hw hc hp (St.init w) (stOK_init _ _ w) F r hrun hr
 
 end C02
 end Pakhi
